@@ -576,6 +576,13 @@ func checkEvents(o *Observed) []Finding {
 	var out []Finding
 	published := map[int]bool{}
 	find := func(pred func(i int, l *ledger.ChainedLog) bool, upto int) int {
+		// several entries can have the same content (e.g. two empty metadata writes on one target): an entry not yet
+		// described by an event is preferred
+		for i, l := range o.Logs {
+			if i < upto && !published[i] && pred(i, l) {
+				return i
+			}
+		}
 		for i, l := range o.Logs {
 			if i < upto && pred(i, l) {
 				return i
